@@ -142,7 +142,7 @@ StringDictionaryRPHTFC::StringDictionaryRPHTFC(IteratorDictString *it,
   bitsrp = rp->getBits();
 
   std::vector<size_t> intStrings;              // Encoded internal strings
-  std::vector<size_t> beginnings(buckets + 1); // Bucket beginnings
+  std::vector<size_t> beginnings(buckets + 2); // Bucket beginnings
 
   size_t ibytes = 0;
   uint io = 0, strings = 0;
@@ -235,7 +235,7 @@ StringDictionaryRPHTFC::StringDictionaryRPHTFC(IteratorDictString *it,
       // Updating the ptr value to the beginning of the corresponding internal
       // string
       ptrB = beginnings[bucket - 1];
-      ptrE = beginnings[bucket] - 1;
+      ptrE = beginnings[bucket];
 
       // Adding an ending decodeable string  (if required)
       if (textSubstr.size() > 0) {
@@ -281,7 +281,7 @@ StringDictionaryRPHTFC::StringDictionaryRPHTFC(IteratorDictString *it,
       offset = 0;
       textStrings[bytesStrings] = 0;
 
-      for (; ptrB <= ptrE; ptrB++)
+      for (; ptrB < ptrE; ptrB++)
         bytesStrings += encodeSymbol(intStrings[ptrB],
                                      &(textStrings[bytesStrings]), &offset);
 
